@@ -59,7 +59,7 @@ fn post(rep: &Report, _t: Tier) -> Vec<String> {
             out.push(format!("policy clause {:?} is never the first failing clause of an explored input", c));
         }
     }
-    for fam in ["L1", "L1r", "L2", "L2pair", "L2types", "L2class", "L2len", "L2field", "L4", "L5"] {
+    for fam in ["L1", "L1r", "L2", "L2pair", "L2types", "L2class", "L2len", "L2field", "L4flags", "L4", "L5"] {
         if !rep.classes.contains_key(&format!("{}:accepted", fam)) {
             out.push(format!("family {} contains no accepted packet", fam));
         }
@@ -331,6 +331,16 @@ fn run(ctx: &mut Ctx, rep: &mut Report, mode: Mode) {
             }
         });
     }
+    // header flags x inflated counts x every truncation
+    {
+        let ctxp: *mut Sweep = &mut sw;
+        flags_truncation_packets(|i, p| {
+            let sw = unsafe { &mut *ctxp };
+            if sw.ctx.mine(i) {
+                sw.one("L4flags", p);
+            }
+        });
+    }
     // L4
     let seeds = closure_seeds(tier.pick(0, 1));
     for s in &seeds {
@@ -451,6 +461,7 @@ fn run(ctx: &mut Ctx, rep: &mut Report, mode: Mode) {
             }
         }
     }
+    l5.extend(permuted_chain_packets());
     for (i, p) in l5.iter().enumerate() {
         if sw.ctx.mine(i as u64) {
             sw.one("L5", p);
